@@ -43,6 +43,7 @@ type c07In struct {
 	Default  Bs         `json:"default,omitempty"`
 	Intended []c07Range `json:"intended,omitempty"` // ranges the header was built from (structured stream only)
 	ExtAfterQ bool      `json:"ext_after_q,omitempty"`
+	QTailParam bool     `json:"q_tail_param,omitempty"` // some parameter name ends in the letter q (freq=3): its "q=" is taken for the weight
 }
 
 type c07Spec struct {
@@ -164,6 +165,12 @@ func c07Junk(r *rand.Rand) string {
 // c07Header builds header lines from a list of ranges; returns lines, the intended ranges and
 // whether some q is followed by an extension parameter.
 func c07Header(r *rand.Rand) (lines []Bs, intended []c07Range, extAfterQ bool) {
+	lines, intended, extAfterQ, _ = c07HeaderQ(r, false)
+	return
+}
+
+// c07HeaderQ is c07Header; with tail it may also write parameters whose name ends in q before the weight.
+func c07HeaderQ(r *rand.Rand, tail bool) (lines []Bs, intended []c07Range, extAfterQ bool, qTail bool) {
 	nlines := 1
 	if r.Intn(4) == 0 {
 		nlines = 2
@@ -178,6 +185,10 @@ func c07Header(r *rand.Rand) (lines []Bs, intended []c07Range, extAfterQ bool) {
 			rg := c07Range{Value: Bs(v)}
 			if r.Intn(5) == 0 { // parameter before q
 				sb.WriteString(c07ws(r) + ";" + c07ws(r) + "level=1")
+			}
+			if tail && r.Intn(3) == 0 {
+				sb.WriteString(";" + []string{"freq=3", "seq=0.5", "iq=1"}[r.Intn(3)])
+				qTail = true
 			}
 			if r.Intn(3) != 0 {
 				q := c07QLit(r)
@@ -208,6 +219,8 @@ func c07Header(r *rand.Rand) (lines []Bs, intended []c07Range, extAfterQ bool) {
 	}
 	return
 }
+
+var _ = c07HeaderQ
 
 func c07Offers(r *rand.Rand) []Bs {
 	n := r.Intn(5)
@@ -252,8 +265,8 @@ func (c07) Gen(r *rand.Rand, tier string, i int) any {
 			}
 			return c07In{Kind: "parse", Lines: ls}
 		}
-		ls, intended, ext := c07Header(r)
-		return c07In{Kind: "parse", Lines: ls, Intended: intended, ExtAfterQ: ext}
+		ls, intended, ext, qt := c07HeaderQ(r, r.Intn(12) == 0)
+		return c07In{Kind: "parse", Lines: ls, Intended: intended, ExtAfterQ: ext, QTailParam: qt}
 	case k < 16:
 		var ls []Bs
 		var ext bool
@@ -411,6 +424,9 @@ func (c07) Classify(inAny any, obsAny any) []string {
 	var kf []string
 	if in.Kind == "parse" && in.ExtAfterQ {
 		kf = append(kf, "accept.extension_parameter_after_q")
+	}
+	if in.Kind == "parse" && in.QTailParam {
+		kf = append(kf, "accept.parameter_name_ending_in_q")
 	}
 	return kf
 }
